@@ -191,6 +191,27 @@ pub fn last_stage() -> &'static str {
     STAGE.with(|c| c.get())
 }
 
+thread_local! {
+    static BUILD_SIG: std::cell::Cell<Option<[usize; 4]>> = const { std::cell::Cell::new(None) };
+}
+
+/// Engines call this after every successful circuit build: `[ops, mmcs_ops, public_flat_len,
+/// private_flat_len]` — number of operations of the built circuit, number of non-primitive ops that
+/// need private data (Merkle openings), flattened input lengths.
+pub fn set_build_sig(sig: [usize; 4]) {
+    BUILD_SIG.with(|c| c.set(Some(sig)));
+}
+
+/// Size signature of the circuit this thread built last (`None` after `clear_build_sig` if no
+/// build succeeded since).
+pub fn last_build_sig() -> Option<[usize; 4]> {
+    BUILD_SIG.with(|c| c.get())
+}
+
+pub fn clear_build_sig() {
+    BUILD_SIG.with(|c| c.set(None));
+}
+
 /// The four integers of `FriVerifierParams` plus the MMCS switch (`permutation_config: Some/None`).
 #[derive(Clone, Debug, PartialEq, Eq)]
 pub struct FvpSpec {
@@ -482,6 +503,7 @@ impl Fixture {
                 return Err("engine does not support parameter overrides".to_string());
             }
             set_stage("");
+            clear_build_sig();
             let c = e.circuit(tree, true);
             let st = last_stage();
             e.set_override(None);
@@ -492,6 +514,7 @@ impl Fixture {
     /// C15: fresh-circuit verdict plus the entry point it stopped in (`run` for Accept).
     pub fn circuit_verify_fresh_staged(&self, tree: &Value) -> (Verdict, &'static str) {
         set_stage("");
+        clear_build_sig();
         let v = self.circuit_verify_fresh(tree);
         (v, last_stage())
     }
